@@ -5,7 +5,7 @@ cd /verif || exit 1
 git add -A; git commit -qm "wip before merging $BR" 2>/dev/null
 git merge $BR -m "merge $BR" >/tmp/scratch/merge.log 2>&1
 if grep -q "Automatic merge failed" /tmp/scratch/merge.log; then
-  harness/merge_fix.sh $BR $AREA
+  harness/merge_fix.sh $BR $AREA || exit 1
   for f in $(git status --short | grep "^UU evidence\|^AA evidence" | awk '{print $2}'); do git checkout --ours $f; done
   git checkout --ours MANIFEST.json 2>/dev/null
   git add -A
